@@ -300,6 +300,18 @@ The translation is directed by the structure of the AST; nothing is recognised "
               SPECS `join_ifs`: an `if` that only rebinds existing variables yields their tuple
               and the rest of the block is emitted once; SPECS `sum_return`: returns of
               different types -> a Lean sum of the distinct types in order of first `return`
+  utilities   (group UtilFns, selfies/utils/selfies_utils.py: len_selfies,
+              get_alphabet_from_selfies)  `s.count("c")` for a one-character literal ->
+              PyRt.strCount1; `set()` / `x.add(e)` / `x.discard(e)` -> a duplicate-free list in
+              insertion order (PyRt.setAdd, PyRt.setDiscard); `set(xs)` of a list or of a
+              generator (PyRt.genList, PyRt.setOfList); `"sep".join(xs)` (PyRt.strJoin); a SPECS callee may be a function
+              defined in the same module (here the generator split_selfies)
+  generators  (SPECS `generator=item type`, class TrGenerator: split_selfies)  the body runs in
+              `Except (PyExc × List item)`: `yield e` appends to `py_out`, `raise E` is
+              `.error (E, py_out)`, `PyRt.genRun` gives (items yielded, terminal exception);
+              `s.find("c"[, start])` -> PyRt.strFind1, `s[a:b]` -> PyRt.strSlice;
+              `while … v < bound …` -> recursion on fuel `(bound - v).toNat + 1` (sufficiency
+              PROVED in Proofs/GenEq8.lean); expressions that can raise are outside the subset
 Anything else raises `Unsupported`; the function then gets the hand copy of
 Generated/Fallback.lean and is listed in the group's `translatorFallbacks…` constant.
 """
@@ -340,6 +352,11 @@ def Tup(*ts):
 def Uni(a, b):
     """a parameter annotated `Union[A, B]`: a Lean sum"""
     return ("Union", a, b)
+
+
+def Set(t):
+    """a Python set: a duplicate-free list in insertion order (PyRt.setAdd / setDiscard)"""
+    return ("Set", t)
 
 
 def Gen(t):
@@ -384,7 +401,7 @@ def render(t):
         return "(Option Int)"
     if t[0] == "Option":
         return "(Option %s)" % render(t[1])
-    if t[0] == "List":
+    if t[0] in ("List", "Set"):
         return "(List %s)" % render(t[1])
     if t[0] == "Dict":
         return "(List (%s × %s))" % (render(t[1]), render(t[2]))
@@ -475,17 +492,26 @@ SPECS = [
          callees=[("len_selfies", "selfies.utils.selfies_utils", Fn(NAT, STR)),
                   ("split_selfies", "selfies.utils.selfies_utils", Fn(Gen(STR), STR))],
          defaults=True, join_ifs=True, sum_return=True),
+    dict(name="len_selfies", file="selfies/utils/selfies_utils.py", group="UtilFns",
+         params=[("selfies", STR)]),
+    dict(name="split_selfies", file="selfies/utils/selfies_utils.py", group="UtilFns",
+         params=[("selfies", STR)], generator=STR),
+    dict(name="get_alphabet_from_selfies", file="selfies/utils/selfies_utils.py", group="UtilFns",
+         params=[("selfies_iter", Lst(STR))],
+         callees=[("split_selfies", "selfies.utils.selfies_utils", Fn(Gen(STR), STR))]),
 ]
 MODULE_OF_FILE = {"selfies/grammar_rules.py": "selfies.grammar_rules",
                   "selfies/bond_constraints.py": "selfies.bond_constraints",
                   "selfies/mol_graph.py": "selfies.mol_graph",
                   "selfies/decoder.py": "selfies.decoder",
-                  "selfies/utils/encoding_utils.py": "selfies.utils.encoding_utils"}
+                  "selfies/utils/encoding_utils.py": "selfies.utils.encoding_utils",
+                  "selfies/utils/selfies_utils.py": "selfies.utils.selfies_utils"}
 GROUPS = {
     "IndexFns": dict(imports=["SelfiesVerif.Generated.Tables"], fallbacks="translatorFallbacksIndex"),
     "CapacityFns": dict(imports=[], fallbacks="translatorFallbacksCapacity"),
     "ReadIndexFns": dict(imports=["SelfiesVerif.Generated.IndexFns"], fallbacks="translatorFallbacksReadIndex"),
     "EncodingFns": dict(imports=[], fallbacks="translatorFallbacksEncoding"),
+    "UtilFns": dict(imports=[], fallbacks="translatorFallbacksUtil"),
 }
 LEAN_RESERVED = set("""
 at by do else end export extends for from fun have if import in instance let match mut namespace notation
@@ -1052,6 +1078,18 @@ class TrX:
                 return acc, INT
             if f.id == "list" and not e.args:
                 return "[]", Lst(TVar())
+            if f.id == "set" and not e.args:
+                return "[]", Set(TVar())
+            if f.id == "set" and len(e.args) == 1 and not isinstance(e.args[0], ast.Starred):
+                # `set(xs)` of a list, a set or a generator (which is run to its end first: the
+                # exception that ends it, if any, is raised here)
+                t, ty = self.expr(e.args[0], env)
+                ty = norm(ty)
+                if isinstance(ty, tuple) and ty[0] == "Gen":
+                    t, ty = self.effect("PyRt.genList %s" % t, Lst(ty[1])), Lst(ty[1])
+                if isinstance(ty, tuple) and ty[0] in ("List", "Set") and not isinstance(resolve(ty[1]), TVar):
+                    return "(PyRt.setOfList %s)" % t, Set(ty[1])
+                raise Unsupported("set of %s" % render(ty))
             if f.id == "len" and len(e.args) == 1:
                 t, ty = self.expr(e.args[0], env)
                 ty = norm(ty)
@@ -1102,6 +1140,30 @@ class TrX:
                 if norm(ty) == Lst(STR):
                     return "(List.flatten %s)" % t, STR
                 raise Unsupported("join of %s" % render(ty))
+            if isinstance(f.value, ast.Constant) and isinstance(f.value.value, str) and f.value.value != "" \
+                    and f.attr == "join" and len(e.args) == 1:
+                t, ty = self.expr(e.args[0], env)
+                if norm(ty) == Lst(STR):
+                    return "(PyRt.strJoin %s %s)" % (lean_str(f.value.value), t), STR
+                raise Unsupported("join of %s" % render(ty))
+            if f.attr == "find" and len(e.args) in (1, 2) and isinstance(e.args[0], ast.Constant) \
+                    and isinstance(e.args[0].value, str) and len(e.args[0].value) == 1:
+                # `s.find("c")` / `s.find("c", start)` for a one-character needle (-1 if absent)
+                v, tv = self.expr(f.value, env)
+                if norm(tv) != STR:
+                    raise Unsupported("find method of %s" % render(tv))
+                st = "(0 : Int)"
+                if len(e.args) == 2:
+                    a, ta = self.expr(e.args[1], env)
+                    st = self.as_int(a, ta)
+                return "(PyRt.strFind1 %s %s %s)" % (v, lean_char(e.args[0].value), st), INT
+            if f.attr == "count" and len(e.args) == 1 and isinstance(e.args[0], ast.Constant) \
+                    and isinstance(e.args[0].value, str) and len(e.args[0].value) == 1:
+                # `s.count("c")` for a one-character needle: occurrences cannot overlap
+                v, tv = self.expr(f.value, env)
+                if norm(tv) != STR:
+                    raise Unsupported("count method of %s" % render(tv))
+                return "(PyRt.strCount1 %s %s)" % (v, lean_char(e.args[0].value)), NAT
             if f.attr == "index" and len(e.args) == 1:
                 v, tv = self.expr(f.value, env)
                 tv = norm(tv)
@@ -1200,6 +1262,11 @@ class TrX:
                     and isinstance(s.step.op, ast.USub) and isinstance(s.step.operand, ast.Constant) \
                     and s.step.operand.value == 1 and (tv == STR or (isinstance(tv, tuple) and tv[0] == "List")):
                 return "(List.reverse %s)" % v, tv
+            if tv == STR and s.step is None and s.lower is not None and s.upper is not None:
+                # `s[a:b]` on a str (never raises; negative indices count from the end)
+                a, ta = self.expr(s.lower, env)
+                b, tb = self.expr(s.upper, env)
+                return "(PyRt.strSlice %s %s %s)" % (v, self.as_int(a, ta), self.as_int(b, tb)), STR
             raise Unsupported("slice")
         if isinstance(tv, tuple) and tv[0] == "Tuple":
             n = len(tv) - 1
@@ -1288,6 +1355,17 @@ class TrX:
                     return ["let %s : %s := (%s ++ [%s])" % (x, render(tx), x, item)], env
                 if m == "reverse" and not s.value.args:
                     return ["let %s : %s := (List.reverse %s)" % (x, render(tx), x)], env
+            if isinstance(tx, tuple) and tx[0] == "Set" and not s.value.keywords and x not in self.frozen \
+                    and m in ("add", "discard") and len(s.value.args) == 1:
+                t, ty = self.expr(s.value.args[0], env)
+                want = resolve(tx[1])
+                if isinstance(want, TVar):
+                    if norm(ty) == NONE:
+                        raise Unsupported("None in a set")
+                    unify(want, ty)
+                item = self.coerce(t, ty, resolve(want))
+                return ["let %s : %s := (PyRt.%s %s %s)" % (
+                    x, render(tx), "setAdd" if m == "add" else "setDiscard", x, item)], env
             raise Unsupported("method statement %s" % m)
         return None
 
@@ -1541,6 +1619,7 @@ class TrX:
         self.gen_end = None
         self.gen_allowed = not isinstance(s.iter, ast.Call) or not isinstance(s.iter.func, ast.Name) \
             or s.iter.func.id not in ("reversed", "enumerate")
+        npending = len(self.pending)
         try:
             lst, elem = self.iterable(s.iter, env)
         finally:
@@ -1548,6 +1627,8 @@ class TrX:
         gen_end = self.gen_end
         self.gen_end = None
         if gen_end is not None and self.pure_only:
+            # the enclosing block is retried in monadic mode: drop the hoisted generator call
+            del self.pending[npending:]
             raise NeedsMonad()
         head = self.flush(pad)
         names = self.loop_state(s.body, [], env)
@@ -1807,8 +1888,9 @@ class TrX:
         # library functions that are called but not translated: parameters of the Lean function.
         # The name must denote that function: imported from its module and never rebound here.
         for cname, cmod, cty in spec.get("callees", []):
-            if self.mod.imported.get(cname) != (cmod, cname) or cname in self.mod.assigned \
-                    or cname in self.mod.defs or cname in assigned_names(fn.body) or cname in names:
+            same = cmod == self.mod.modname and cname in self.mod.defs and cname not in self.mod.imported
+            if (not same and (self.mod.imported.get(cname) != (cmod, cname) or cname in self.mod.defs)) \
+                    or cname in self.mod.assigned or cname in assigned_names(fn.body) or cname in names:
                 raise Unsupported("callee %s is not the function of %s" % (cname, cmod))
             env[cname] = cty
         for p, ty in spec.get("params", []):
@@ -1934,6 +2016,222 @@ class TrX:
         return _re.sub("\x02T(\\d+)\x02", sub, text)
 
 
+class TrGenerator:
+    """a generator function whose expressions cannot raise: the body runs in the monad
+    `Except (PyExc × List item)` with the items yielded so far in the variable `py_out`
+    (`yield e` appends, `raise E` is `.error (E, py_out)`), and `PyRt.genRun` turns the outcome
+    into the translator's generator protocol (items yielded, exception that ends the iteration).
+    Statements: assignments of names, `yield e`, `raise E(..)`, `if` (only rebinding existing
+    names), `while … v < bound …` where `bound` is not changed by the body: an auxiliary
+    definition by structural recursion on a fuel argument, called with `(bound - v).toNat + 1`;
+    running out of fuel is `.error (.NonTermination, py_out)` (that the fuel suffices is PROVED
+    in Proofs/GenEq8.lean)."""
+
+    def __init__(self, spec, mod, registry):
+        self.spec = spec
+        self.x = TrX(spec, mod, registry)
+        self.x.pure_only = True
+        self.aux = []
+        self.nwhile = 0
+        self.nst = 0
+        self.item = spec["generator"]
+        self.fname = lean_name(spec)
+
+    def e(self, f):
+        try:
+            pend, r = self.x.isolated(f)
+        except NeedsMonad:
+            raise Unsupported("an operation that can raise inside a generator")
+        if pend:
+            raise Unsupported("an operation that can raise inside a generator")
+        return r
+
+    def mty(self):
+        return "Except (PyExc × %s)" % render(Lst(self.item))
+
+    def tuple_of(self, names):
+        return "()" if not names else names[0] if len(names) == 1 else "(" + ", ".join(names) + ")"
+
+    def type_of(self, names, env):
+        return "Unit" if not names else render(env[names[0]]) if len(names) == 1 \
+            else render(Tup(*[env[n] for n in names]))
+
+    def unpack(self, st, names, env, pad):
+        if len(names) <= 1:
+            return ""
+        return "".join("%slet %s : %s := %s\n" % (pad, n, render(env[n]), proj(st, i, len(names)))
+                       for i, n in enumerate(names))
+
+    def state_names(self, stmts, env):
+        names = [n for n in assigned_names(stmts) if n in env]
+        if any(isinstance(y, (ast.Yield, ast.Raise)) for st in stmts for y in ast.walk(st)):
+            names.append("py_out")
+        names = sorted(set(names), key=lambda n: (type_rank(env[n]), n))
+        for n in assigned_names(stmts):
+            if n not in env:
+                raise Unsupported("variable %s is first assigned inside a branch" % n)
+        return names
+
+    def block(self, stmts, env, indent, k):
+        """k(env) -> the last line of the block (a term of the monad)"""
+        pad = "  " * indent
+        out = ""
+        for i, st in enumerate(stmts):
+            tail = stmts[i + 1:]
+            if isinstance(st, ast.Expr) and isinstance(st.value, ast.Constant) and isinstance(st.value.value, str):
+                continue
+            if isinstance(st, ast.Pass):
+                continue
+            if isinstance(st, ast.Expr) and isinstance(st.value, ast.Yield) and st.value.value is not None:
+                t, ty = self.e(lambda: self.x.expr(st.value.value, env))
+                item = self.x.coerce(t, ty, self.item)
+                out += "%slet py_out : %s := (py_out ++ [%s])\n" % (pad, render(Lst(self.item)), item)
+                continue
+            if isinstance(st, ast.Raise):
+                self.x.pure_only = False
+                try:
+                    self.x.raise_(st)   # checks the form
+                finally:
+                    self.x.pure_only = True
+                exc = st.exc.func.id if isinstance(st.exc, ast.Call) else st.exc.id
+                return out + "%sExcept.error (PyExc.%s, py_out)" % (pad, exc)
+            if isinstance(st, (ast.Assign, ast.AugAssign)):
+                tg = st.targets[0] if isinstance(st, ast.Assign) and len(st.targets) == 1 else \
+                    st.target if isinstance(st, ast.AugAssign) else None
+                if not isinstance(tg, ast.Name):
+                    raise Unsupported("assignment target in a generator")
+                if isinstance(st, ast.Assign):
+                    t, ty = self.e(lambda: self.x.expr(st.value, env))
+                else:
+                    t, ty = self.e(lambda: self.x.binop(st.op, ast.Name(id=tg.id, ctx=ast.Load()), st.value, env))
+                ty = norm(ty)
+                if ty == NONE or (isinstance(ty, tuple) and ty[0] != "Tuple") or tg.id in self.frozen:
+                    raise Unsupported("assignment of %s in a generator" % render(ty))
+                if tg.id in env and not unify(norm(env[tg.id]), ty):
+                    raise Unsupported("variable %s changes its type" % tg.id)
+                env = dict(env)
+                env[tg.id] = ty
+                out += "%slet %s : %s := %s\n" % (pad, tg.id, render(ty), t)
+                continue
+            if isinstance(st, ast.If):
+                c, tc = self.e(lambda: self.x.expr(st.test, env))
+                c = self.x.truth(c, tc)
+                names = self.state_names(st.body + st.orelse, env)
+                y = lambda e2: "%sExcept.ok %s" % ("  " * (indent + 2), self.tuple_of(names))
+                a = self.block(st.body, env, indent + 2, y)
+                b = self.block(st.orelse, env, indent + 2, y)
+                self.nst += 1
+                sname = "_" if not names else names[0] if len(names) == 1 else "py_st_%d" % self.nst
+                out += "%slet %s : %s ← (if %s then do\n%s\n%s  else do\n%s)\n" % (
+                    pad, sname, self.type_of(names, env), c, a, pad, b)
+                out += self.unpack(sname, names, env, pad)
+                continue
+            if isinstance(st, ast.While):
+                out += self.while_(st, tail, env, indent)
+                continue
+            raise Unsupported("statement %s in a generator" % type(st).__name__)
+        return out + k(env)
+
+    def while_(self, st, tail, env, indent):
+        pad = "  " * indent
+        if st.orelse:
+            raise Unsupported("loop else")
+        for y in ast.walk(st):
+            if isinstance(y, (ast.Break, ast.Continue, ast.Return)) or (y is not st and isinstance(y, (ast.While, ast.For))):
+                raise Unsupported("%s inside a generator loop" % type(y).__name__.lower())
+        assigned = assigned_names(st.body)
+        names = [n for n in assigned if n in env] + ["py_out"]
+        names = sorted(set(names), key=lambda n: (type_rank(env[n]), n))
+        fresh = [n for n in assigned if n not in env]
+        if set(fresh) & used_names(tail):
+            raise Unsupported("a variable first assigned inside the loop is used after it")
+        # the measure: a comparison `v < bound` of the condition, v assigned in the body, bound not
+        measure = None
+        if isinstance(st.test, ast.Compare):
+            operands = [st.test.left] + list(st.test.comparators)
+            for (l, op, r) in zip(operands, st.test.ops, operands[1:]):
+                if isinstance(op, ast.Lt) and isinstance(l, ast.Name) and l.id in names \
+                        and not (used_names([r]) & set(assigned)):
+                    measure = (l, r)
+        if measure is None:
+            raise Unsupported("while loop without a measure of the form v < bound")
+        v, tv = self.e(lambda: self.x.expr(measure[0], env))
+        b, tb = self.e(lambda: self.x.expr(measure[1], env))
+        fuel = "(Int.toNat (%s - %s) + 1)" % (self.x.as_int(b, tb), self.x.as_int(v, tv))
+        self.nwhile += 1
+        aname = "%s_while%d" % (self.fname, self.nwhile)
+        free = [n for n in env if n not in names and n in used_names([st])
+                and not (isinstance(norm(env[n]), tuple) and norm(env[n])[0] == "Fn")]
+        saved_frozen = self.frozen
+        self.frozen = self.frozen | set(free)
+        c, tc = self.e(lambda: self.x.expr(st.test, env))
+        c = self.x.truth(c, tc)
+        sty = self.type_of(names, env)
+        tup = self.tuple_of(names)
+
+        def again(e2):
+            for n in names:
+                if not unify(norm(env[n]), norm(e2[n])):
+                    raise Unsupported("loop variable %s changes its type" % n)
+            return "      %s %s py_fuel %s" % (aname, " ".join(free), tup)
+        body = self.block(st.body, env, 3, again)
+        self.frozen = saved_frozen
+        params = " ".join("(%s : %s)" % (n, render(env[n])) for n in free)
+        out_of = proj("py_st", names.index("py_out"), len(names))
+        text = "/-- the `while` loop of `%s` (line %d): structural recursion on a fuel argument -/\n" % (
+            self.spec["name"], st.lineno)
+        text += "def %s %s : Nat → %s → %s %s\n" % (aname, params, sty, self.mty(), sty)
+        text += "  | 0, py_st => Except.error (PyExc.NonTermination, %s)\n" % out_of
+        text += "  | py_fuel + 1, py_st => do\n"
+        text += self.unpack("py_st", names, env, "    ") if len(names) > 1 else \
+            "    let %s : %s := py_st\n" % (names[0], sty)
+        text += "    if %s then\n%s\n    else\n      Except.ok %s\n" % (c, body, tup)
+        self.aux.append(text)
+        self.aux_sigs.append((aname, "%s : Nat → %s → %s %s" % (params, sty, self.mty(), sty), " ".join(free)))
+        sname = names[0] if len(names) == 1 else "py_st_w%d" % self.nwhile
+        out = "%slet %s : %s ← %s %s %s %s\n" % (pad, sname, sty, aname, " ".join(free), fuel, tup)
+        out += self.unpack(sname, names, env, pad)
+        return out
+
+    def translate(self, fn):
+        spec = self.spec
+        a = fn.args
+        names = [x.arg for x in a.args]
+        if a.kwarg or a.kwonlyargs or a.posonlyargs or a.vararg or a.defaults or fn.decorator_list:
+            raise Unsupported("signature")
+        if names != [p for p, _ in spec["params"]]:
+            raise Unsupported("parameters %s" % names)
+        import re as _re
+        allnames = {x.id for x in ast.walk(fn) if isinstance(x, ast.Name)} | set(names)
+        for n in sorted(allnames):
+            if (n in LEAN_RESERVED and n not in ("len", "min", "max")) or n.startswith("py_") \
+                    or _re.match(r"^(st|x|t)_\d+$", n) or not _re.match(r"^[A-Za-z_][A-Za-z0-9_]*$", n):
+                if n not in EXC_NAMES:
+                    raise Unsupported("identifier %s cannot be used in the Lean text" % n)
+        for x in ast.walk(fn):
+            if isinstance(x, (ast.Global, ast.Nonlocal, ast.Lambda, ast.AsyncFunctionDef, ast.ClassDef,
+                              ast.YieldFrom, ast.Await, ast.SetComp, ast.DictComp, ast.GeneratorExp,
+                              ast.ListComp, ast.NamedExpr, ast.Delete, ast.With, ast.Import, ast.ImportFrom,
+                              ast.Try, ast.For, ast.Return)) or (isinstance(x, ast.FunctionDef) and x is not fn):
+                raise Unsupported("construct %s in a generator" % type(x).__name__)
+            if isinstance(x, ast.Yield) and x.value is None:
+                raise Unsupported("bare yield")
+        if not any(isinstance(x, ast.Yield) for x in ast.walk(fn)):
+            raise Unsupported("not a generator")
+        env = {p: ty for p, ty in spec["params"]}
+        self.frozen = frozenset(env)
+        self.aux_sigs = []
+        env["py_out"] = Lst(self.item)
+        body = self.block(fn.body, env, 2, lambda e2: "    Except.ok py_out")
+        params = " ".join("(%s : %s)" % (p, render(ty)) for p, ty in spec["params"])
+        sig = "%s : %s" % (params, render(Gen(self.item)))
+        text = "".join(t + "\n" for t in self.aux)
+        text += "def %s %s :=\n  PyRt.genRun (do\n    let py_out : %s := []\n%s)\n" % (
+            self.fname, sig, render(Lst(self.item)), body)
+        self.x.aux = self.aux
+        return text, dict(globals=[], ret=Gen(self.item), iter_params=[], sig=sig, aux=self.aux_sigs)
+
+
 TVAR_BY_ID = {}
 _old_tvar_init = TVar.__init__
 
@@ -1967,7 +2265,7 @@ def generate_pure(repo):
                 fn = mod.defs.get(name)
             if fn is None:
                 raise Unsupported("function not found")
-            tr = TrX(spec, mod, registry)
+            tr = TrGenerator(spec, mod, registry) if spec.get("generator") else TrX(spec, mod, registry)
             text, sig = tr.translate(fn)
             registry[name] = (spec, sig)
             doc = "/-- `%s` of %s (line %d), translated from the AST.%s -/\n" % (
@@ -1975,7 +2273,7 @@ def generate_pure(repo):
                 " Decorators ignored: %s." % ", ".join(ast.unparse(d) for d in fn.decorator_list)
                 if fn.decorator_list else "")
             text = text.replace("def %s " % lean_name(spec), doc + "def %s " % lean_name(spec), 1) \
-                if tr.aux else doc + text
+                if (tr.aux or spec.get("generator")) and not text.startswith("def %s " % lean_name(spec)) else doc + text
             chunks[spec["group"]].append(text)
             info[key] = {"ok": True, "lean": "SV.Gen." + lean_name(spec), "file": spec["file"],
                          "module": "SelfiesVerif.Generated." + spec["group"], "signature": sig["sig"],
@@ -2023,6 +2321,11 @@ FALLBACK_SIGS = {
                             "(enc_type : Str) : Py Str", STR, []),
     "selfies_to_encoding": ("(len_selfies : (Str → Nat)) (split_selfies : (Str → ((List Str) × (Option PyExc)))) (selfies : Str) (vocab_stoi : (List (Str × Int))) (pad_to_len : Int) (enc_type : Str) : Py ((List Int) ⊕ ((List (List Int)) ⊕ ((List Int) × (List (List Int)))))", Uni(Lst(INT), Uni(Lst(Lst(INT)), Tup(Lst(INT), Lst(Lst(INT))))), []),
 }
+FALLBACK_SIGS["len_selfies"] = ("(selfies : Str) : Py Int", INT, [])
+FALLBACK_SIGS["split_selfies"] = ("(selfies : Str) : ((List Str) × (Option PyExc))", Gen(STR), [])
+FALLBACK_SIGS["get_alphabet_from_selfies"] = (
+    "(split_selfies : (Str → ((List Str) × (Option PyExc)))) (selfies_iter : (List Str)) : Py (List Str)",
+    Set(STR), [])
 # loop definitions that the proofs refer to by name (kept available under a fallback)
 FALLBACK_AUX = {
     "get_selfies_from_index": [("get_selfies_from_index_while1",
@@ -2037,3 +2340,9 @@ FALLBACK_ARGS = {
     "encoding_to_selfies": ["encoding", "vocab_itos", "enc_type"],
     "selfies_to_encoding": ["len_selfies", "split_selfies", "selfies", "vocab_stoi", "pad_to_len", "enc_type"],
 }
+FALLBACK_ARGS["len_selfies"] = ["selfies"]
+FALLBACK_ARGS["get_alphabet_from_selfies"] = ["split_selfies", "selfies_iter"]
+FALLBACK_ARGS["split_selfies"] = ["selfies"]
+FALLBACK_AUX["split_selfies"] = [("split_selfies_while1",
+                                  "(selfies : Str) : Nat → (Int × (List Str)) → Except (PyExc × (List Str)) (Int × (List Str))",
+                                  "selfies")]
